@@ -27,6 +27,7 @@ import random
 
 from common import Result, driver_batch, load_corpus, use_repo
 import framegen as fg
+import connfake
 import pipefake
 
 use_repo()
@@ -37,6 +38,20 @@ from pyplumio.protocol import AsyncProtocol  # noqa: E402
 PASSWORD = 186  # FrameType.RESPONSE_PASSWORD; payload = <len byte> + text, data = {"password": text}
 ECOMAX, ECOSTER, ECONET = 69, 81, 86
 ADDRS = [ECOMAX, ECOSTER, ECONET]
+
+
+CONSUMERS = [1, 2, 3, 4, 5]                  # consumers_count of the protocol object
+ROUTES = ["get", "wait_for", "attr"]          # how the user asks for the device: get(name) / wait_for(name) + get_nowait(name) /
+                                              # wait_for(name) + attribute access protocol.<name>
+
+
+def variant(i):
+    """deterministic spread of the public-route dimensions over enumerated cases"""
+    return dict(consumers=CONSUMERS[i % 5], cbsusp=(i // 5) % 2, route=ROUTES[(i // 2) % 3], conn=bool((i // 3) % 2))
+
+
+def random_variant(rng):
+    return dict(consumers=rng.choice(CONSUMERS), cbsusp=rng.randint(0, 1), route=rng.choice(ROUTES), conn=rng.random() < 0.5)
 
 
 def name_of(addr):
@@ -125,17 +140,64 @@ def run_case(case):
 
         for a in ADDRS:
             subscribe(a)
-        conn = dict(reader=asyncio.StreamReader(), established=1, lost=0)
+        once_seen = {}
 
-        async def reconnect():
-            conn["lost"] += 1
+        def subscribe_once(addr):
+            async def once(dev):
+                once_seen.setdefault(addr, []).append(dev)
+            proto.subscribe_once(name_of(addr), once)
+
+        for a in ADDRS:
+            subscribe_once(a)
+        conn = dict(reader=None, established=0, lost=0)
+        if case.get("conn"):
+            # the public route: a Connection object (open_tcp_connection / open_serial_connection return one) owning the
+            # protocol, reconnect_on_failure=True: Connection._reconnect is the on_connection_lost callback
+            link = connfake.ScriptedConnection(protocol=proto, reconnect_on_failure=True)
+
+            async def count_loss():
+                conn["lost"] += 1
+
+            proto.on_connection_lost.add(count_loss)
+            loop.create_task(link.connect())
+            loop.settle()
+            conn["reader"] = link.readers[-1]
+            conn["established"] = len(link.readers)
+        else:
+            link = None
+
+            async def reconnect():
+                conn["lost"] += 1
+                conn["reader"] = asyncio.StreamReader()
+                proto.connection_established(conn["reader"], pipefake.FakeWriter())
+                conn["established"] += 1
+
+            proto.on_connection_lost.add(reconnect)
             conn["reader"] = asyncio.StreamReader()
-            proto.connection_established(conn["reader"], pipefake.FakeWriter())
-            conn["established"] += 1
+            conn["established"] = 1
+            loop.call_soon(proto.connection_established, conn["reader"], pipefake.FakeWriter())
+            loop.settle()
+        route_bad = []
 
-        proto.on_connection_lost.add(reconnect)
-        loop.call_soon(proto.connection_established, conn["reader"], pipefake.FakeWriter())
-        loop.settle()
+        def check_reads():
+            # get_nowait() and attribute access are reads of the same entry as get(): they must agree with it at every instant
+            for a in ADDRS:
+                cur = proto.data.get(name_of(a))
+                if proto.get_nowait(name_of(a), None) is not cur:
+                    route_bad.append(f"get_nowait({name_of(a)!r}) is not the entry")
+                try:
+                    att = getattr(proto, name_of(a))
+                except AttributeError:
+                    att = None
+                if att is not cur:
+                    route_bad.append(f"protocol.{name_of(a)} is not the entry")
+
+        async def ask(addr):
+            name = name_of(addr)
+            if case.get("route", "get") == "get":
+                return await proto.get(name)
+            await proto.wait_for(name)
+            return proto.get_nowait(name) if case.get("route") == "wait_for" else getattr(proto, name)
         fed = []      # address of every frame fed
         asked = []    # address of every get()
         effective, snaps = [], []
@@ -182,8 +244,12 @@ def run_case(case):
                 loop.release(0)
             else:
                 asked.append(e[1])
-                gets.append(loop.create_task(proto.get(name_of(e[1]))))
+                gets.append(loop.create_task(ask(e[1])))
             loop.settle()
+            if link is not None and e[0] == "C":
+                conn["reader"] = link.readers[-1]
+                conn["established"] = len(link.readers)
+            check_reads()
             effective.append(ev)
             snaps.append(snapshot())
             return True
@@ -197,7 +263,10 @@ def run_case(case):
         extra = dict(
             unfinished=proto._queues.read._unfinished_tasks,
             consumers_alive=sum(1 for t in proto.tasks if t.get_name().startswith("frame_consumer") and not t.done()),
-            fa=fed, ga=asked, timed_gets_ok=all(timed), connections=conn["established"], losses=conn["lost"],
+            fa=fed, ga=asked, timed_gets_ok=all(timed), route_bad=sorted(set(route_bad)),
+            once=[(a, [canon(d) for d in v]) for a, v in sorted(once_seen.items())],
+            kept={a: proto.data[name_of(a)].data.get("password") for a in ADDRS if name_of(a) in proto.data},
+            connections=conn["established"], losses=conn["lost"],
             setup_objects=[canon(d) for d in setups],
         )
     return effective, snaps, extra
@@ -309,7 +378,7 @@ def random_schedule(rng, multi=False):
 def parse_case(line):
     """corpus line: <consumers> <cbsusp> <events…>"""
     w = line.split()
-    return dict(consumers=int(w[0]), cbsusp=int(w[1]), events=w[2:])
+    return dict(variant(sum(map(ord, line))), consumers=int(w[0]), cbsusp=int(w[1]), events=w[2:])
 
 
 def evaluate(res, cases):
@@ -319,11 +388,12 @@ def evaluate(res, cases):
         f"c10judge {CR_WORD} {lst(map(str, extra['fa']))} {lst(map(str, extra['ga']))} " + " ; ".join(show_snap(o) for o in snaps)
         for _, snaps, extra in runs)
     for case, (eff, snaps, extra), m, v in zip(cases, runs, model, verdicts):
-        inp = dict(consumers=case["consumers"], cbsusp=case.get("cbsusp", 0), events=eff, requested=case["events"])
+        inp = dict(consumers=case["consumers"], cbsusp=case.get("cbsusp", 0), route=case.get("route", "get"), conn=bool(case.get("conn")),
+                   events=eff, requested=case["events"])
         obs = [show_snap(o) for o in snaps]
         nframes = len(extra["fa"])
         nontrivial = nframes >= 2 or bool(extra["ga"])
-        res.case((case["consumers"], case.get("cbsusp", 0), tuple(eff)), nontrivial)
+        res.case((case["consumers"], case.get("cbsusp", 0), case.get("route", "get"), bool(case.get("conn")), tuple(eff)), nontrivial)
         res.count(f"frames:{nframes}")
         res.count(f"consumers:{case['consumers']}")
         res.count(f"gets:{len(extra['ga'])}")
@@ -361,6 +431,22 @@ def evaluate(res, cases):
         if extra["unfinished"] != 0 or extra["consumers_alive"] != case["consumers"]:
             res.fail("corr", inp, dict(unfinished=0, consumers_alive=case["consumers"]), extra,
                      "read queue not balanced or a consumer died")
+        if extra["route_bad"]:
+            res.fail("spec", inp, "get_nowait(name) / protocol.<name> return the entry get(name) returns", extra["route_bad"],
+                     "another public way to ask for the device disagrees with the entry")
+        for a, objs in extra["once"]:
+            first = [d for x, d in snaps[-1]["dispatched"] if x == a][:1] if snaps else []
+            if objs != first:
+                res.fail("spec", inp, dict(address=a, subscribe_once_saw=first), objs,
+                         "a subscribe_once() observer of the address name did not see exactly the one announced object")
+        if snaps and snaps[-1]["held"] == 0:
+            for a, pw in extra["kept"].items():
+                idx = [f for f, x in enumerate(extra["fa"]) if x == int(a)]
+                if idx and pw != "%04d" % idx[-1]:
+                    res.fail("spec", inp, "%04d" % idx[-1], pw, "the entry does not hold the data of the last frame of its address "
+                             "(data kept across reconnects, frames not split between objects)")
+        res.count(f"route:{case.get('route', 'get')}")
+        res.count("via:" + ("Connection._reconnect" if case.get("conn") else "on_connection_lost callback"))
         if len(set(extra["setup_objects"])) != len(extra["setup_objects"]):
             res.fail("spec", inp, "one set-up task per device object", extra, "set-up started twice for one device object")
         if len(res.samples) < 5 and nontrivial and "R" in eff and len(set(extra["fa"])) >= (2 if len(res.samples) >= 3 else 1) \
@@ -373,32 +459,32 @@ def run(ctx):
     res = Result("C10")
     res.rule = ("schedule = arrangement of feed groups (1..4 frames in total, any grouping; one address, or several addresses "
                 "69 / 81 / 86 = no device class), explicit releases of the device-class imports (the rest released at the end) and "
-                "get(<name>) calls, reconnects (connection lost and re-established) at every position of the timeline; x consumers 1..3 x protocol-level callback suspending or not. distinct = (consumers, cbsusp, "
+                "get(<name>) calls, reconnects (connection lost and re-established) at every position of the timeline; x consumers_count 1..5 x the way the user asks (get / wait_for + get_nowait / attribute access) x the reconnect route (Connection._reconnect of a Connection object owning the protocol / a plain on_connection_lost callback) x protocol-level callback suspending or not. distinct = (consumers, cbsusp, "
                 "effective event list); non-trivial = at least two frames or a get() in the schedule")
     cases = [parse_case(ln) for _, ln in load_corpus("C10")]
     if ctx["tier"] == "thorough":
         for ev in all_schedules(4, 2):
-            for n in (1, 2, 3):
-                cases.append(dict(consumers=n, cbsusp=(len(ev) + n) % 2, events=ev))
+            for n in (1, 2, 3, 5):
+                cases.append(dict(variant(len(cases)), consumers=n, events=ev))
         for i, ev in enumerate(mixed_schedules(3)):
-            cases.append(dict(consumers=1 + i % 3, cbsusp=(i // 3) % 2, events=ev))
+            cases.append(dict(variant(i), events=ev))
         for _ in range(3000):
-            cases.append(dict(consumers=rng.randint(1, 3), cbsusp=rng.randint(0, 1), events=random_schedule(rng, multi=rng.random() < 0.7)))
+            cases.append(dict(random_variant(rng), events=random_schedule(rng, multi=rng.random() < 0.7)))
         for i, ev in enumerate(all_schedules(3, 1)):          # a reconnect at every position of the timeline
             for ev2 in with_reconnects(ev):
-                cases.append(dict(consumers=1 + i % 3, cbsusp=i % 2, events=ev2))
+                cases.append(dict(variant(i), events=ev2))
         for i, ev in enumerate(mixed_schedules(2)):
             for ev2 in with_reconnects(ev, positions=[rng.randint(0, len(ev))]):
-                cases.append(dict(consumers=1 + i % 3, cbsusp=i % 2, events=ev2))
+                cases.append(dict(variant(i), events=ev2))
         for _ in range(1000):
             ev = random_schedule(rng, multi=rng.random() < 0.5)
             for _ in range(rng.choice([1, 1, 2])):
                 ev.insert(rng.randint(0, len(ev)), "C")
-            cases.append(dict(consumers=rng.randint(1, 3), cbsusp=rng.randint(0, 1), events=ev))
+            cases.append(dict(random_variant(rng), events=ev))
         for i, ev in enumerate(all_schedules(3, 1)):          # an impatient get() at every position, next to a patient one
             if any(x[0] == "G" for x in ev):
                 for ev2 in with_timed_gets(ev):
-                    cases.append(dict(consumers=1 + i % 3, cbsusp=i % 2, events=ev2))
+                    cases.append(dict(variant(i), events=ev2))
         res.exhaustive = True
         res.extra["exhaustive_over"] = ("one address: all arrangements of feed groups of 1..4 frames x release position x 0..2 get() "
                                         "positions x consumers 1..3; several addresses: all sequences of 1..3 frames over {69,81,86} x "
@@ -407,26 +493,26 @@ def run(ctx):
         pool = list(all_schedules(4, 1))
         rng.shuffle(pool)
         for ev in pool:
-            cases.append(dict(consumers=rng.randint(1, 3), cbsusp=rng.randint(0, 1), events=ev))
+            cases.append(dict(random_variant(rng), events=ev))
         mixed = list(mixed_schedules(2))
         rng.shuffle(mixed)
         for ev in mixed[:250]:
-            cases.append(dict(consumers=rng.randint(1, 3), cbsusp=rng.randint(0, 1), events=ev))
+            cases.append(dict(random_variant(rng), events=ev))
         for _ in range(300):
-            cases.append(dict(consumers=rng.randint(1, 3), cbsusp=rng.randint(0, 1), events=random_schedule(rng, multi=rng.random() < 0.7)))
+            cases.append(dict(random_variant(rng), events=random_schedule(rng, multi=rng.random() < 0.7)))
         short = list(all_schedules(3, 1))
         rng.shuffle(short)
         for ev in short[:60]:                                   # a reconnect at every position of the timeline
             for ev2 in with_reconnects(ev):
-                cases.append(dict(consumers=rng.randint(1, 3), cbsusp=rng.randint(0, 1), events=ev2))
+                cases.append(dict(random_variant(rng), events=ev2))
         for _ in range(150):
             ev = random_schedule(rng, multi=rng.random() < 0.5)
             for _ in range(rng.choice([1, 1, 2])):
                 ev.insert(rng.randint(0, len(ev)), "C")
-            cases.append(dict(consumers=rng.randint(1, 3), cbsusp=rng.randint(0, 1), events=ev))
+            cases.append(dict(random_variant(rng), events=ev))
         for ev in [e for e in short if any(x[0] == "G" for x in e)][:40]:   # an impatient get() at every position, next to a patient one
             for ev2 in with_timed_gets(ev):
-                cases.append(dict(consumers=rng.randint(1, 3), cbsusp=rng.randint(0, 1), events=ev2))
+                cases.append(dict(random_variant(rng), events=ev2))
     if ctx.get("max_cases"):
         cases = cases[:ctx["max_cases"]]
     evaluate(res, cases)
@@ -438,5 +524,6 @@ def replay(ctx):
     inp = f["input"]
     res = Result("C10")
     res.rule = "replay of one recorded schedule"
-    evaluate(res, [dict(consumers=inp["consumers"], cbsusp=inp.get("cbsusp", 0), events=inp.get("requested") or inp["events"])])
+    evaluate(res, [dict(consumers=inp["consumers"], cbsusp=inp.get("cbsusp", 0), route=inp.get("route", "get"), conn=bool(inp.get("conn")),
+                        events=inp.get("requested") or inp["events"])])
     return res
